@@ -1027,6 +1027,12 @@ class DataT:
                 return t.broadcast_to_dims(dims)
             raise PyExc('RuntimeError', 'shape mismatch: cannot broadcast %s to %s' % (self.shape, [s for _, s in dims]))
         pad = len(dims) - len(sd)
+        # a spatial axis of extent 1 broadcasts like any other: every position reads the single sample
+        for i, ((k, s_), (tk, ts)) in enumerate(zip(sd, dims[pad:])):
+            if k == 'S' and tk == 'S' and s_ == 1 and ts > 1:
+                idx = [slice(None)] * len(sd)
+                idx[i] = np.zeros(ts, dtype=np.int64)
+                return self[tuple(idx)].broadcast_to_dims(dims)
         sd = [('E', 1)] * pad + sd
         cells = self.cells.reshape((1,) * pad + self.cells.shape)
         tgt_e = []
